@@ -368,7 +368,7 @@ func judgeC12(sc scenario, out BuildOut) (viol [][2]string) {
 			continue
 		}
 		key := strings.TrimPrefix(p.Label, "find ")
-		content := key[:strings.Index(key, "//")]
+		content := key[:strings.LastIndex(key, "//")]
 		pkgOf := func(file string) string {
 			// the package whose content class is `content`: the finder cannot know the address, the builder does
 			return file
